@@ -77,6 +77,10 @@ impl Chooser {
     }
   }
 
+  pub fn prefix(&self) -> &[u32] {
+    &self.prefix
+  }
+
   pub fn deviations(&self) -> u32 {
     self.dev_used
   }
